@@ -334,9 +334,11 @@ def rule_shape(prog, rep):
     m, fn = prog.func("flowjax.utils.merge_cond_shapes")
     argn, src = FUNC_REFS["flowjax.utils.merge_cond_shapes"]
     a0 = [("sym", a) for a in argn]
-    compare(rep, "C08.shape", f"{m.relpath}:{fn.lineno}", "merge_cond_shapes:value",
-            Interp(prog).eval_function("flowjax.utils.merge_cond_shapes", a0), eval_ref_function(prog, m, src, a0),
-            "merged condition shape")
+    from . import shapegrid
+    if not shapegrid.rule(prog, rep, "C08.shape", "merge_cond_shapes"):
+        compare(rep, "C08.shape", f"{m.relpath}:{fn.lineno}", "merge_cond_shapes:value",
+                Interp(prog).eval_function("flowjax.utils.merge_cond_shapes", a0), eval_ref_function(prog, m, src, a0),
+                "merged condition shape")
     # declared shapes / framing quantities of the conditioner-based layers and of Vmap (and its axis helpers)
     from .conform import conform_function, conform_init
     from .ctor_refs import FUNCS, INITS
